@@ -26,12 +26,14 @@ type pgen struct {
 	st *Stats
 	// maximal nesting depth of search keys
 	maxDepth int
-	// allowZeroLit: emit `{0}` for empty strings now and then (valid syntax, rejected by gluon: #17)
+	// allowZeroLit: emit `{0}` for empty strings now and then
 	allowZeroLit bool
+	// deep: thorough tier, allow nesting depths in the thousands (#18; far below what overflows the Go stack)
+	deep bool
 	// allowLBracket: put '[' into atoms now and then (an ATOM-CHAR by RFC 3501, rejected by gluon)
 	allowLBracket bool
 	// features of the command under construction that are known to hit gluon defects:
-	// lit0 (`{0}`), listlit (list-mailbox as literal), lbr ('[' inside an atom)
+	// listlit (list-mailbox as literal), lbr ('[' inside an atom)
 	feats map[string]bool
 }
 
@@ -181,7 +183,6 @@ func (g *pgen) quoted(v []byte) []byte {
 func (g *pgen) literal(v []byte) []byte {
 	g.st.Inc("enc.literal")
 	if len(v) == 0 {
-		g.feat("lit0")
 		g.st.Inc("enc.literal0")
 	}
 	return append([]byte(fmt.Sprintf("{%d}\r\n", len(v))), v...)
@@ -190,7 +191,7 @@ func (g *pgen) literal(v []byte) []byte {
 // stringEnc: `string = quoted / literal`
 func (g *pgen) stringEnc(v []byte) []byte {
 	if len(v) == 0 {
-		if g.allowZeroLit && g.r.Chance(1, 25) {
+		if g.allowZeroLit && g.r.Chance(1, 4) {
 			return g.literal(v)
 		}
 		return g.quoted(v)
@@ -693,7 +694,7 @@ func (g *pgen) command(name string) ([]byte, string) {
 		if g.r.Chance(1, 3) {
 			lit = []byte("Date: Mon, 7 Feb 1994 21:52:25 -0800 (PST)\r\nFrom: Fred Foobar <foobar@example.com>\r\nSubject: x\r\n\r\nHello\r\n")
 		}
-		if g.allowZeroLit && g.r.Chance(1, 60) {
+		if g.allowZeroLit && g.r.Chance(1, 12) {
 			lit = nil
 		}
 		parts = append(parts, g.literal(lit))
@@ -856,6 +857,9 @@ func (g *pgen) mutate(wire []byte) (string, []byte) {
 		return "literal", []byte(pre + lit + tail)
 	case c < 17: // nesting
 		depth := Pick(r, []int{1, 2, 5, 20, 100, 300})
+		if g.deep && r.Chance(1, 4) {
+			depth = Pick(r, []int{1000, 3000})
+		}
 		switch r.Intn(4) {
 		case 0:
 			return "nest", []byte("a SEARCH " + strings.Repeat("(", depth) + "ALL" + strings.Repeat(")", depth) + "\r\n")
@@ -886,7 +890,7 @@ func (g *pgen) mutate(wire []byte) (string, []byte) {
 
 func genParseBad(r *Rng, n int, w io.Writer, st *Stats) {
 	r = r.Fork() // see genParseValid
-	g := &pgen{r: r, st: &Stats{Counts: map[string]int{}}, maxDepth: 3, allowZeroLit: true}
+	g := &pgen{r: r, st: &Stats{Counts: map[string]int{}}, maxDepth: 3, allowZeroLit: true, deep: n > 50000}
 	emit := func(kind string, b []byte) {
 		st.Inc("mut." + kind)
 		fmt.Fprintf(w, "parsebad %d %s ? %s\n", r.U64()%1000000, hexB(b), kind)
@@ -913,5 +917,30 @@ func genParseBad(r *Rng, n int, w io.Writer, st *Stats) {
 		}
 		emit(kind, b)
 		i++
+	}
+}
+
+// genParseN: streams of several command lines — valid ones and mutated ones mixed — for the reader loop
+// (dialect `parsen`).
+func genParseN(r *Rng, n int, w io.Writer, st *Stats) {
+	r = r.Fork()
+	g := &pgen{r: r, st: &Stats{Counts: map[string]int{}}, maxDepth: 3, allowZeroLit: true}
+	for i := 0; i < n; i++ {
+		k := r.Range(1, 5)
+		var stream []byte
+		bad := 0
+		for j := 0; j < k; j++ {
+			_, wire, _ := g.line()
+			if r.Chance(1, 3) {
+				_, wire = g.mutate(wire)
+				bad++
+			}
+			stream = append(stream, wire...)
+		}
+		if r.Chance(1, 6) {
+			stream = stream[:r.Intn(len(stream)+1)]
+		}
+		st.Inc(fmt.Sprintf("lines.%d.mutated.%d", k, bad))
+		fmt.Fprintf(w, "parsen %d %s\n", r.U64()%1000000, hexB(stream))
 	}
 }
